@@ -408,3 +408,31 @@ Proof.
   pose proof (rows_close_nth (cR k) (cR_nonneg k) dsd dse 0 i dd de H Nd Ne) as F.
   replace (QcZ (Z.of_nat (S i)) * cR k) with (0 + QcZ (Z.of_nat (S i)) * cR k) by ring. exact F.
 Qed.
+
+(* ---- the instance for amounts below a million ---- *)
+Lemma QcZ_le a b : (a <= b)%Z -> QcZ a <= QcZ b.
+Proof. intros H. unfold QcZ. qc_unfold. unfold Qle, inject_Z. cbn [Qnum Qden]. lia. Qed.
+
+Lemma cR_6 : cR 6 = Qcfrac 13 500000000000000.
+Proof. apply Qc_is_canon. vm_compute. reflexivity. Qed.
+Lemma cR_9 : cR 9 = Qcfrac 13 500000000.
+Proof. apply Qc_is_canon. vm_compute. reflexivity. Qed.
+
+Theorem run_error_bound_million init txs dsd od dse oe :
+  Forall (fun t => valid_tx t = true) txs ->
+  run dec init txs = (dsd, od) -> run exact init txs = (dse, oe) ->
+  in_class 6 dsd dse = true ->
+  forall i dd de, (Z.of_nat i < 38461)%Z -> nth_error dsd i = Some dd -> nth_error dse i = Some de ->
+    fig_close (Qcfrac 1 1000000000) dd de.
+Proof.
+  intros Hv Hd He Hc i dd de Hi Nd Ne.
+  apply (fig_close_mono (QcZ (Z.of_nat (S i)) * cR 6)).
+  - rewrite cR_6. assert (Hz : (Z.of_nat (S i) <= 38461)%Z) by (clear - Hi; lia).
+    pose proof (QcZ_le (Z.of_nat (S i)) 38461 Hz) as H.
+    assert (E : QcZ 38461 * Qcfrac 13 500000000000000 <= Qcfrac 1 1000000000) by (vm_compute; discriminate).
+    assert (P : 0 <= Qcfrac 13 500000000000000) by (vm_compute; discriminate).
+    set (x := QcZ (Z.of_nat (S i))) in *. set (y := QcZ 38461) in *. set (c := Qcfrac 13 500000000000000) in *.
+    set (z := Qcfrac 1 1000000000) in *. clearbody x y c z.
+    apply Qcle_trans with (y * c); [apply Qcmult_le_compat_r; assumption | exact E].
+  - apply (run_error_accumulates 6 init txs dsd od dse oe); try assumption. lia.
+Qed.
